@@ -5,3 +5,5 @@ import CheetahModel.Properties.C07
 #print axioms C07.drift_straight_line
 #print axioms C07.drift_momenta
 #print axioms C07.tdc_zero_voltage_is_drift
+#print axioms C07.quad_body_flow
+#print axioms C07.quad_num_steps_independent
